@@ -647,7 +647,7 @@ def run(ctx: Ctx):
         "weighted estimators: weights >= 0 with positive total; rescaling by positive factors only (a set-valued "
         "weighted median need not commute with reflection)",
         "formula agreement of modal_location and the Kaiser / Savitzky-Golay coefficients are not claimed (DESIGN 9); "
-        "mean_squared_error is compared with its formula only when `initial` is given (initial=None: C17 candidate 12)",
+        "mean_squared_error (not one of the property's estimators) is held to its docstring: from zero, or from `initial`",
     ]
 
 
